@@ -1,10 +1,10 @@
 ------------------------------ MODULE MC_JsCall ------------------------------
 EXTENDS JsCall, Json, TLC
 \* emission of every method shape in scope with its plan
-EmitInit == cs \in Case /\ heap = <<>> /\ phase = "marshal" /\ regs = 0 /\ fin = 0 /\ wst = "none"
+EmitInit == cs \in Case /\ heap = <<>> /\ phase = "marshal" /\ regs = 0 /\ fin = 0 /\ wst = "none" /\ oreg = 0 /\ odes = 0
 EmitSpec == EmitInit /\ [][FALSE]_vars
 Emit == PrintT(<<"CASE", ToJson([c |-> [abi |-> cs.abi, self |-> cs.self, params |-> cs.params, borrow |-> cs.borrow, ret |-> cs.ret, ok |-> cs.ok],
-                                 nalloc |-> Len(Plan(cs)), regs |-> ExpectedRegs(cs),
+                                 nalloc |-> Len(Plan(cs)), regs |-> ExpectedRegs(cs), oregs |-> ExpectedOregs(cs),
                                  gc |-> Cardinality({i \in 1..Len(Plan(cs)) : Plan(cs)[i].cls = "gc"})])>>)
 \* negative model: what the legacy-ABI code path does today -- slice buffers are put into no arena at all, so nothing ever
 \* frees them: the machine gets stuck before "done"
